@@ -1,6 +1,7 @@
 SPECIFICATION Spec
 CONSTANTS
   MaxSet = 2
+  Bases <- BasesNone
   Ordered = TRUE
 ACTION_CONSTRAINT EmitBehaviour
 CHECK_DEADLOCK FALSE
